@@ -102,7 +102,8 @@ def run(run):
                         if j == 0 and i < 2:
                             run.sample(dict(base=base_text, layout=text, results=sum(wantc.values())))
                         # the same re-layout as the body of a rule file: both rule-file readers flatten it line by line
-                        if "\n" in text and j < 2:
+                        # (a literal that spans lines is changed by both readers: the recorded finding of C18, not a layout question)
+                        if "\n" in text and j < 2 and not any("\n" in lx or "\r" in lx for lx in q.lexemes):
                             for path in ("ci-reader", "file-reader"):
                                 if path == "ci-reader":
                                     er = h.call(op="rule", text=text)
